@@ -1493,6 +1493,19 @@ def run(ck: Ck) -> None:
                                                         ('hdr_faces', ['hdr_faces']), ('props', ['props'])]:
                 if st.startswith(pref) and (hit_views & set(views) or '!any' in hit_views):
                     ck.explain(nm)
+        if nm.startswith('translate:'):
+            # a translator that fails closed names the function whose shape it did not recognise: a concrete mismatch of the view that
+            # function reads / writes (or a save / re-read that fails altogether) explains it
+            import re
+            for m in re.finditer(r'_lmp_(?:write|read)_(\w+)|(_write_faces_common|_read_faces_common)|\b(save)\(\)', o.get('detail', '')):
+                st = m.group(1) or ('faces' if m.group(2) else '')
+                if m.group(3) and hit_views:
+                    ck.explain(nm)
+                for pref, views in list(view_of.items()) + [('props', ['props']), ('detail_props', ['detail_props']), ('visleafs', ['visleafs']),
+                                                            ('water_leaf_info', ['water_leaf_info']), ('visibility', ['visibility']),
+                                                            ('ents', ['ents']), ('textures', ['textures', 'texinfo'])]:
+                    if st and st.startswith(pref) and (hit_views & set(views) or hit_views & {'!any', '!read', '!save'}):
+                        ck.explain(nm)
         if nm.startswith('instance:index_table_loop_reaches_every_entry:'):
             # a loop that does not reach the entries appended to its table: objects met only through references get an index but no
             # record - the re-read fails (index past the end of the lump) or the view of the writer / of a referring lump differs
